@@ -88,6 +88,14 @@ def _norm_recv(text: str) -> str:
 def _attached_list(e: ast.AST) -> Optional[Tuple[str, str]]:
     """(iterated expression, condition) of a comprehension selecting attached controllers."""
     for n in ast.walk(e):
+        # {name: ctl for name, ctl in M.controllers.items() if ctl.attached(M)}: the same selection, kept as a mapping (insertion order)
+        if isinstance(n, ast.DictComp) and len(n.generators) == 1 and isinstance(n.generators[0].target, ast.Tuple) \
+                and len(n.generators[0].target.elts) == 2 and norm(n.key) == norm(n.generators[0].target.elts[0]) \
+                and norm(n.value) == norm(n.generators[0].target.elts[1]) and norm(n.generators[0].iter).endswith(".controllers.items()") \
+                and len(n.generators[0].ifs) == 1 and isinstance(n.generators[0].target.elts[1], ast.Name):
+            g = n.generators[0]
+            cond = re.sub(rf"\b{re.escape(g.target.elts[1].id)}\b", "c", _norm_recv(norm(g.ifs[0])))
+            return _norm_recv(norm(g.iter)), cond
         if isinstance(n, (ast.ListComp, ast.GeneratorExp)) and len(n.generators) == 1:
             g = n.generators[0]
             if norm(g.iter).endswith(".controllers.items()") and len(g.ifs) == 1:
@@ -128,6 +136,8 @@ def tail_descriptor(rows: List[codec.WRow], fn: Optional[ast.FunctionDef] = None
                 loop = r.loops[-1] if r.loops else ""
                 try:
                     it = ast.parse(loop.split(" in ", 1)[1], mode="eval").body
+                    if fn is not None:
+                        it = subst_locals(fn, it)
                     d["cval_list"] = _attached_list(it)
                     d["cval_var"] = loop.split(" in ", 1)[0][4:]
                     first = d["cval_var"].split(",")[0].strip().strip("(")
@@ -331,6 +341,8 @@ def cmid_reader_rule(repo: Repo, rep, P: str, rule: str):
         def rleaf(e):
             if isinstance(e, ast.Call) and norm(e.func) == "len" and len(e.args) == 1 and norm(e.args[0]) == data[0]:
                 return L
+            if isinstance(e, ast.Call) and norm(e.func) == "len" and len(e.args) == 1 and norm(e.args[0]) in ("self.controllers", "self.controllers.keys()"):
+                return alg.Poly.sym("N")
             if isinstance(e, ast.Name) and e.id in fconsts:
                 return alg.Poly.const(fconsts[e.id])
             if isinstance(e, (ast.Name, ast.Attribute)):
@@ -352,6 +364,8 @@ def cmid_reader_rule(repo: Repo, rep, P: str, rule: str):
             rep.violation(f"{P}.{rule}", con, norm(it.args[1]), "CMID records start at offset 0 and are 8 bytes apart", f"{mod.file.rel}:{lp.lineno}")
             return
         slack = stop - L
+        if stop == alg.Poly.sym("N") * alg.Poly.const(8):
+            slack = alg.Poly.const(0)          # one offset per controller of the table: the length test on the slice skips records the data does not hold
         if not slack.is_const():
             rep.inconclusive(f"{P}.{rule}", con, norm(it.args[1]), "range stop is not len(data) + constant", where)
             return
@@ -484,6 +498,9 @@ def chnm_pairing(repo: Repo, rep, P: str):
                 elif tgt == "":
                     rep.violation(f"{P}.R3", construct, text,
                                   f"{ci.name} writes chunk number {k:#x} but its load_chunk does not dispatch it: the data is lost on load", where)
+                elif tgt != n.field and not re.fullmatch(r"\w+(\[\w+\])?", n.field):
+                    rep.inconclusive(f"{P}.R3", construct, text + f"; loaded into `{tgt}`",
+                                     "the written payload is a computed value: which attribute it serialises is not recognised", where)
                 elif tgt != n.field:
                     rep.violation(f"{P}.R3", construct, text + f"; loaded into `{tgt}`",
                                   f"{ci.name}: chunk {k:#x} is written from `{n.field}` but loaded into `{tgt}`", where)
@@ -510,13 +527,20 @@ def chnm_pairing(repo: Repo, rep, P: str):
                 # parity-dispatched families (sampler): a constant that only bounds a family is not a number of its own
                 if any(n.lo <= k + 1 <= n.hi or n.lo <= k - 1 <= n.hi for n in nums if n.step > 1) and tgt in ("sample_meta", "sample_data"):
                     continue
+                if problems:
+                    rep.inconclusive(f"{P}.R3", construct, f"chunk {k:#x} → `{tgt}`",
+                                     "no writer found for this chunk number, but part of the writer was not modelled", f"{rel}:{getattr(node, 'lineno', 0)}")
+                    continue
                 rep.violation(f"{P}.R3", construct, f"chunk {k:#x} → `{tgt}`",
                               f"{ci.name}.load_chunk loads chunk number {k:#x} into `{tgt}`, but the class never writes that chunk: "
                               f"`{tgt}` is dropped on save and comes back as its default", f"{rel}:{getattr(node, 'lineno', 0)}")
         # options: generated option list non-empty ⇒ options number is written and dispatched
         if all_options(repo, ci):
             fields = {n.field for n in nums}
-            if "options" not in fields:
+            if "options" not in fields and problems:
+                rep.inconclusive(f"{P}.R3", construct, "super().specialized_iff_chunks()",
+                                 "options writer not found, but part of the writer was not modelled", rel)
+            elif "options" not in fields:
                 rep.violation(f"{P}.R3", construct, "super().specialized_iff_chunks()",
                               f"{ci.name} has options but its specialised writer never reaches Module.options_chunks "
                               "(missing super() call): options are not saved", rel)
@@ -729,6 +753,65 @@ def _array_decoder(repo: Repo, arr: ClassInfo, sb: ast.FunctionDef) -> Tuple[str
     return "ok", ""
 
 
+def struct_field_orders(repo: Repo, k: ClassInfo) -> Tuple[Optional[List[str]], Optional[List[str]]]:
+    """(fields in the order encoded_values writes them, fields in the order the element class's constructor takes them) of a
+    struct-typed array chunk; None where the shape is not recognised."""
+    ev = repo.lookup(k, "encoded_values")
+    pt = repo.lookup(k, "python_type")
+    order_w = order_r = None
+    if ev and ev[1] == "property" and ev[2][0] is not None:
+        evn = inline.normalize(repo, ev[0], ev[2][0], aliases=True)
+        for n in ast.walk(evn):
+            if isinstance(n, (ast.GeneratorExp, ast.ListComp)) and isinstance(n.elt, (ast.Tuple, ast.List)) and len(n.generators) == 1 \
+                    and isinstance(n.generators[0].target, ast.Name) \
+                    and all(isinstance(e, ast.Attribute) and norm(e.value) == n.generators[0].target.id for e in n.elt.elts):
+                order_w = [e.attr for e in n.elt.elts]
+            # [field for m in self.values for field in (m.module, m.controller)]
+            if isinstance(n, (ast.GeneratorExp, ast.ListComp)) and len(n.generators) == 2 and isinstance(n.generators[0].target, ast.Name) \
+                    and isinstance(n.generators[1].target, ast.Name) and isinstance(n.elt, ast.Name) and n.elt.id == n.generators[1].target.id \
+                    and not n.generators[0].ifs and not n.generators[1].ifs and isinstance(n.generators[1].iter, (ast.Tuple, ast.List)) \
+                    and all(isinstance(e, ast.Attribute) and norm(e.value) == n.generators[0].target.id for e in n.generators[1].iter.elts):
+                order_w = [e.attr for e in n.generators[1].iter.elts]
+            # map(attrgetter("min", "max", …), self.values): the fields in the order the getter names them
+            if isinstance(n, ast.Call) and norm(n.func) == "map" and len(n.args) == 2 and order_w is None:
+                g_ = n.args[0]
+                if isinstance(g_, (ast.Name, ast.Attribute)):
+                    g_ = inline.definition_of(repo, ev[0], ev[0].file, g_) or g_
+                if isinstance(g_, ast.Call) and norm(g_.func) == "staticmethod" and len(g_.args) == 1:
+                    g_ = g_.args[0]
+                if isinstance(g_, ast.Call) and norm(g_.func) in ("attrgetter", "operator.attrgetter") and len(g_.args) > 1 \
+                        and all(isinstance(a, ast.Constant) and isinstance(a.value, str) and "." not in a.value for a in g_.args):
+                    order_w = [a.value for a in g_.args]
+    ecls = None
+    if pt and pt[1] == "property" and pt[2][0] is not None:
+        for st in pt[2][0].body:
+            if isinstance(st, ast.Return):
+                ecls = repo.class_of_expr(st.value, k, k.file)
+    if ecls is not None and "__init__" in ecls.methods:
+        for n in walk_no_nested(ecls.methods["__init__"]):
+            if isinstance(n, ast.Assign) and isinstance(n.targets[0], ast.Tuple):
+                order_r = [norm(e).split(".")[-1] for e in n.targets[0].elts]
+                need_n = len(order_r)
+                # the value side must provide exactly that many items
+                if isinstance(n.value, ast.Subscript) and isinstance(n.value.slice, ast.Slice):
+                    try:
+                        hi = repo.fold(n.value.slice.upper, ci=ecls)
+                        if hi != need_n:
+                            order_r = order_r + [f"<slice {hi}>"]
+                    except (NotConst, TypeError):
+                        pass
+                # self.a, self.b = value[0], value[1]: by the positions named on the value side
+                if isinstance(n.value, ast.Tuple) and len(n.value.elts) == need_n and all(
+                        isinstance(e, ast.Subscript) and isinstance(e.slice, ast.Constant) and isinstance(e.slice.value, int) and isinstance(e.value, ast.Name)
+                        for e in n.value.elts) and len({e.value.id for e in n.value.elts}) == 1:
+                    idx = [e.slice.value for e in n.value.elts]
+                    if sorted(idx) == list(range(need_n)):
+                        order_r = [nm for _, nm in sorted(zip(idx, order_r))]
+                    else:
+                        order_r = None
+    return order_w, order_r
+
+
 def array_constants(repo: Repo, rep, P: str):
     arr = repo.cls("ArrayChunk", module="rv.chunks.array")
     rel = arr.file.rel
@@ -803,44 +886,7 @@ def array_constants(repo: Repo, rep, P: str):
             continue
         # struct-typed arrays: encoded_values field order = constructor destructuring order
         if len(t) > 1:
-            ev = repo.lookup(k, "encoded_values")
-            pt = repo.lookup(k, "python_type")
-            order_w = order_r = None
-            if ev and ev[1] == "property" and ev[2][0] is not None:
-                evn = inline.normalize(repo, ev[0], ev[2][0], aliases=True)
-                for n in ast.walk(evn):
-                    if isinstance(n, (ast.GeneratorExp, ast.ListComp)) and isinstance(n.elt, (ast.Tuple, ast.List)) and len(n.generators) == 1 \
-                            and isinstance(n.generators[0].target, ast.Name) \
-                            and all(isinstance(e, ast.Attribute) and norm(e.value) == n.generators[0].target.id for e in n.elt.elts):
-                        order_w = [e.attr for e in n.elt.elts]
-                    # map(attrgetter("min", "max", …), self.values): the fields in the order the getter names them
-                    if isinstance(n, ast.Call) and norm(n.func) == "map" and len(n.args) == 2 and order_w is None:
-                        g_ = n.args[0]
-                        if isinstance(g_, (ast.Name, ast.Attribute)):
-                            g_ = inline.definition_of(repo, ev[0], ev[0].file, g_) or g_
-                        if isinstance(g_, ast.Call) and norm(g_.func) == "staticmethod" and len(g_.args) == 1:
-                            g_ = g_.args[0]
-                        if isinstance(g_, ast.Call) and norm(g_.func) in ("attrgetter", "operator.attrgetter") and len(g_.args) > 1 \
-                                and all(isinstance(a, ast.Constant) and isinstance(a.value, str) and "." not in a.value for a in g_.args):
-                            order_w = [a.value for a in g_.args]
-            ecls = None
-            if pt and pt[1] == "property" and pt[2][0] is not None:
-                for st in pt[2][0].body:
-                    if isinstance(st, ast.Return):
-                        ecls = repo.class_of_expr(st.value, k, k.file)
-            if ecls is not None and "__init__" in ecls.methods:
-                for n in walk_no_nested(ecls.methods["__init__"]):
-                    if isinstance(n, ast.Assign) and isinstance(n.targets[0], ast.Tuple):
-                        order_r = [norm(e).split(".")[-1] for e in n.targets[0].elts]
-                        need_n = len(order_r)
-                        # the value side must provide exactly that many items
-                        if isinstance(n.value, ast.Subscript) and isinstance(n.value.slice, ast.Slice):
-                            try:
-                                hi = repo.fold(n.value.slice.upper, ci=ecls)
-                                if hi != need_n:
-                                    order_r = order_r + [f"<slice {hi}>"]
-                            except (NotConst, TypeError):
-                                pass
+            order_w, order_r = struct_field_orders(repo, k)
             if order_w is None or order_r is None:
                 rep.inconclusive(f"{P}.R4", con, text, "struct element field order not recognised", where)
                 continue
